@@ -24,9 +24,20 @@
     / GMRF wired like the CLI (theta = exp(field)); what it hands to its Newton iteration as (numCoalEv, wNative, gamma,
     precision matrix) - the quantities its Gaussian proposal is built from - must reproduce the coalescent density, the
     per-interval oracle and the GMRF density at the proposed precision, per sample of a batch.
+(e') the consumer for two consecutive rounds on the SAME objects: step() -> chain evaluation -> reject() / accept() -> chain
+    evaluation (-> another operator moves the field) -> step(); every precision matrix the operator asks for (before and
+    after its proposal) must be the matrix of the precision the parameter holds at that moment, every statistic it hands over
+    must reproduce the coalescent density of the state the chain is in.
+(f) read / write histories on ONE object: every published quantity (gmrf(), precision_matrix(), the coalescent model call,
+    sufficient_statistics(), GMRFGammaIntegrated(), GMRFCovariate(), ConstantCoalescentIntegratedModel()) is read repeatedly
+    between parameter updates (assign fresh symbols; in place + fire_parameter_changed; restore the saved clone as
+    MCMCOperator.reject does) of field, precision, node heights, population sizes, covariates and effect sizes: every order of
+    the reads followed by every sequence of <= 3 (thorough 4) operations; after every read the value is the one of the symbols
+    the parameters hold NOW (fresh object, quadratic form of the matrix published now, event-list oracle at the current heights).
 """
 from __future__ import annotations
 
+import contextlib
 import functools
 import itertools
 import math
@@ -1504,6 +1515,1263 @@ def ss2_task(task, tr):
     triage(out, rp, tr, label, {'model': model, 'n': n, 'G': G, 'opts': [list(x) if isinstance(x, tuple) else x for x in opts]})
 
 
+# ------------------------------------------------------------------ (e') the consumer driven for two consecutive rounds
+# The real operator inside the MCMC loop: step() (saves its parameters, _step() asks for the statistics and for the precision
+# matrix BEFORE and AFTER it proposes a precision), the chain evaluates prior and coalescent at the proposed state, then
+# accept() or reject() (restores the saved tensors), the chain evaluates again (loggers / the next joint), optionally another
+# operator moves the field, and the NEXT step() asks for everything again from the same objects.  Every precision_matrix() the
+# operator asks for is recorded together with the precision the parameter holds at that moment; the run of _step stops where
+# it hands its first Newton problem over (as in (e)).  Task ('rounds', model, n, G, perm, opts); opts as for 'ss2' plus
+#   decision 'reject' | 'accept'      what the chain does with the first proposal
+#   between  True                     the field is assigned fresh symbols between the two rounds
+def rounds_extra_names(K):
+    return ['taunew2'] + [f'gammab{k}' for k in range(K)]
+
+
+def rounds_flow(model, n, tens, o, proposals, gam_between, on):
+    """the flow above on symbolic or plain tensors; on(event, round, ...) receives what the chain / the operator saw"""
+    op, cmodel, gm, theta_p, gamma_p, prec = _consumer_build(model, n, tens, o['gmrf'], 1)
+    it = iter(proposals)
+    op.propose_precision = lambda: next(it)
+    pm_log, caps = [], []
+    real_pm = gm.precision_matrix
+
+    def rec_pm():
+        Q = real_pm()
+        pm_log.append((Q, prec.tensor))
+        return Q
+
+    def rec_newton(numCoalEv, wNative, gamma, precision_matrix):
+        caps.append((numCoalEv, wNative, gamma, precision_matrix))
+        raise _Captured()
+
+    gm.precision_matrix = rec_pm
+    op.newton_raphson = rec_newton
+    cur = {'gamma': tens['gamma'], 'tau': tens['tau']}
+    for r in range(len(proposals)):
+        on('current', r, cur, gm(), cmodel())
+        del pm_log[:], caps[:]
+        try:
+            op.step()
+        except _Captured:
+            pass
+        prop = dict(cur, tau=proposals[r])
+        on('asked', r, cur, prop, list(pm_log), list(caps))
+        on('proposed', r, prop, gm(), cmodel())
+        if o['decision'] == 'reject':
+            op.reject()
+        else:
+            op.accept()
+            cur = prop
+        on('decided', r, cur, gm(), cmodel())
+        if r == 0 and gam_between is not None:
+            gamma_p.tensor = gam_between
+            cur = dict(cur, gamma=gam_between)
+
+
+def rounds_body(model, n, G, perm, o):
+    import C08
+    from torchtree.distributions.gmrf import GMRF
+    from torchtree.evolution import coalescent as co
+    from torchtree.inference.mcmc.gmrf_block_updating import GMRFPiecewiseCoalescentBlockUpdatingOperator as Op
+    from torchtree.inference.mcmc.operator import MCMCOperator
+
+    K = (n - 1) if model == 'skyride' else G + 1
+    Gm = G if model == 'skygrid' else 0
+    cls = co.PiecewiseConstantCoalescent if model == 'skyride' else co.PiecewiseConstantCoalescentGrid
+    sig = f'GMRFBlockUpdating:{model}:rounds'
+    plain = o['gmrf'] == 'plain'
+
+    def body(t, V0, W):
+        d = t.dag
+        V = ss2_expand(V0, o)
+        Vb = {k: V[k] for k in [f's{i}' for i in range(n)] + [f'c{j}' for j in range(n - 1)]}
+        H, S, C = C08._heights(Vb, None, n, t)
+        gridt = cm.var_tensor(V, [f'g{k}' for k in range(Gm)]) if Gm else None
+        gr = [mkfloat(V[f'g{k}']) for k in range(Gm)]
+        vec = lambda names: from_ids(torch.tensor([V[k] for k in names], dtype=torch.int64))  # noqa
+        tens = {'H': H, 'grid': gridt, 'gamma': vec([f'gamma{k}' for k in range(K)]), 'tau': vec(['tau']), 'taunew': None}
+        proposals = [vec(['taunew']), vec(['taunew2'])]
+        gam_between = vec([f'gammab{k}' for k in range(K)]) if o.get('between') else None
+        goals, memo = {}, {}
+
+        def add(label, node, sg, hyps=()):
+            if (node, sg) not in goals:
+                goals[(node, sg)] = Goal(label, node, hyps=list(hyps), signature=sg)
+
+        def fresh(state):
+            key = (tuple(_flat_ids(d, state['gamma'])), tuple(_flat_ids(d, state['tau'])))
+            if key not in memo:
+                out = []
+                for what in range(3):  # one freshly built object graph per quantity
+                    _, cmodel, gm, theta_p, _, _ = _consumer_build(model, n, dict(tens, gamma=from_ids(state['gamma']._ids.clone()),
+                                                                              tau=from_ids(state['tau']._ids.clone())), o['gmrf'], 1)
+                    out.append([lambda: _flat_ids(d, gm())[0], lambda: _flat_ids(d, cmodel())[0],
+                                lambda: (_flat_ids(d, gm.precision_matrix()), _flat_ids(d, theta_p.tensor))][what]())
+                memo[key] = out
+            return memo[key]
+
+        def on(event, r, *a):
+            who = f'round {r + 1}'
+            if event in ('current', 'proposed', 'decided'):
+                state, lpg, lpc = a
+                when = {'current': 'before step()', 'proposed': 'at the proposed precision', 'decided': f'after {o["decision"]}()'}[event]
+                fg, fc, _ = fresh(state)
+                add(f'{who}, {when}: GMRF() == value of a freshly built object at the state the chain is in', d.eq(_flat_ids(d, lpg)[0], fg),
+                    sig + ':gmrf-density')
+                add(f'{who}, {when}: the coalescent model call == value of a freshly built object at the state the chain is in',
+                    d.eq(_flat_ids(d, lpc)[0], fc), sig + ':coalescent-density')
+                return
+            cur, prop, pms, caps = a
+            if len(pms) != 2 or len(caps) != 1:
+                add(f'{who}: step() asks for the precision matrix before and after the proposal and hands one Newton problem over '
+                    f'(got {len(pms)} matrices, {len(caps)} problems)', d.FALSE, sig + ':reads')
+                return
+            for (Q, held), state, when in zip(pms, (cur, prop), ('before the proposal (current precision)', 'after the proposal (proposed precision)')):
+                fg, _, (Qf, _) = fresh(state)
+                gam, tau = _flat_ids(d, state['gamma']), _flat_ids(d, state['tau'])[0]
+                if _flat_ids(d, held) != [tau] or tuple(Q.shape) != (K, K):
+                    add(f'{who}: the precision matrix asked for {when} is a {K}x{K} matrix asked while the parameter holds that precision',
+                        d.FALSE, sig + ':reads')
+                    continue
+                Qi = _flat_ids(d, Q)
+                add(f'{who}: the precision matrix the operator gets {when} == the matrix a freshly built GMRF publishes for the precision '
+                    f'the parameter holds at that moment', d.and_(*[d.eq(u, v) for u, v in zip(Qi, Qf)]), sig + ':precision-matrix-vs-fresh-object')
+                if plain:
+                    node = d.eq(fg, _gauss_node(d, gam, _nest(Qi, (K, K)), tau, K))
+                    add(f'{who}: GMRF density at the field / precision the parameters hold {when} == Gaussian quadratic form with the matrix '
+                        f'the operator gets at that moment', node, sig + ':gmrf-density-vs-precision-matrix', ground_axioms(d, [node]))
+            c_, w_, g_, Q_ = caps[0]
+            _, fc, (_, th) = fresh(prop)
+            ok = (tuple(c_.shape) == tuple(w_.shape) == tuple(g_.shape) == (K,)) and Q_ is pms[1][0] and \
+                _flat_ids(d, g_) == _flat_ids(d, cur['gamma'])
+            add(f'{who}: counts, statistics and the current field (length {K}) and the proposed precision matrix are handed to the Newton '
+                f'iteration', d.bconst(ok), sig + ':reads')
+            if not ok:
+                return
+            ci, wi = _flat_ids(d, c_), _flat_ids(d, w_)
+            rec = 0
+            for s_, cc, t_ in zip(wi, ci, th):
+                rec = d.sub(rec, d.div(s_, t_))
+                rec = d.sub(rec, d.mul(cc, d.log(t_)))
+            node = d.eq(fc, rec)
+            add(f'{who}: -sum w_k/theta_k - sum c_k log theta_k == coalescent log density at the state the chain is in, (c, w) as handed over',
+                node, sig + ':coalescent-density-vs-statistics', ground_axioms(d, [node]))
+            oss, ocnt = interval_oracle(S, C, list(C) if model == 'skyride' else gr, K, model == 'skyride')
+            add(f'{who}: for each of the {K} intervals, statistic handed over == int C(lineages,2) dt and count == number of coalescent events',
+                d.and_(*([d.eq(wi[k], SymFloat._id(oss[k])) for k in range(K)] + [d.eq(ci[k], d.const(ocnt[k])) for k in range(K)])),
+                sig + ':per-interval')
+
+        rounds_flow(model, n, tens, o, proposals, gam_between, on)
+        return list(goals.values())
+
+    return body, [cls.sufficient_statistics, cls.log_prob, Op._step, MCMCOperator.step, MCMCOperator.reject, MCMCOperator.accept,
+                  GMRF.precision_matrix, GMRF._call]
+
+
+def rounds_replay(model, n, G, perm, o, vals, W):
+    K = (n - 1) if model == 'skyride' else G + 1
+    Gm = G if model == 'skygrid' else 0
+    full = ss2_expand({k: (float(vals[k]) if vals.get(k) is not None else float(W[k])) for k in W}, o)
+    f64 = lambda v: torch.tensor(v, dtype=torch.float64)  # noqa
+    S = [full[f's{i}'] for i in range(n)]
+    C = [full[f'c{j}'] for j in range(n - 1)]
+    gr = [full[f'g{k}'] for k in range(Gm)]
+    pos = lambda k: abs(full[k]) + 1e-9  # noqa
+    tens = {'H': f64(S + C), 'grid': f64(gr) if Gm else None, 'gamma': f64([full[f'gamma{k}'] for k in range(K)]), 'tau': f64([pos('tau')]),
+            'taunew': None}
+    proposals = [f64([pos('taunew')]), f64([pos('taunew2')])]
+    gam_between = f64([full[f'gammab{k}'] for k in range(K)]) if o.get('between') else None
+    oss, ocnt = interval_oracle(S, C, list(C) if model == 'skyride' else gr, K, model == 'skyride')
+    found = []
+
+    def fresh(state):
+        _, cmodel, gm, _, _, _ = _consumer_build(model, n, dict(tens, gamma=state['gamma'].clone(), tau=state['tau'].clone()), o['gmrf'], 1)
+        return float(gm()), gm.precision_matrix()
+
+    def coal_want(state):
+        th = [math.exp(v) for v in state['gamma'].tolist()]
+        return -sum(s_ / t_ for s_, t_ in zip(oss, th)) - sum(c_ * math.log(t_) for c_, t_ in zip(ocnt, th)), th
+
+    def gmrf_want(state):
+        x, tau = state['gamma'].tolist(), float(state['tau'])
+        if o['gmrf'] == 'plain':
+            return sum(0.5 * math.log(tau) - 0.5 * math.log(2 * math.pi) - 0.5 * tau * (x[i + 1] - x[i]) ** 2 for i in range(K - 1))
+        return fresh(state)[0]
+
+    def on(event, r, *a):
+        who = f'round {r + 1}'
+        if event in ('current', 'proposed', 'decided'):
+            state, lpg, lpc = a
+            when = {'current': 'before step()', 'proposed': 'at the proposed precision', 'decided': f'after {o["decision"]}()'}[event]
+            if not _close(float(lpg), gmrf_want(state)):
+                found.append(f'{who}, {when}: GMRF() = {float(lpg)} but the density at the field {state["gamma"].tolist()} / precision '
+                             f'{float(state["tau"])} the parameters hold is {gmrf_want(state)}')
+            cw, th = coal_want(state)
+            if not _close(float(lpc), cw):
+                found.append(f'{who}, {when}: the coalescent model call = {float(lpc)} but the event-list oracle at the population sizes {th} gives {cw}')
+            return
+        cur, prop, pms, caps = a
+        if len(pms) != 2 or len(caps) != 1:
+            found.append(f'{who}: step() asked for {len(pms)} precision matrices and handed {len(caps)} Newton problems over')
+            return
+        for (Q, held), state, when in zip(pms, (cur, prop), ('before the proposal', 'after the proposal')):
+            x, tau = state['gamma'], float(state['tau'])
+            if not _close(float(held), tau):
+                found.append(f'{who}: the parameter holds the precision {float(held)} {when}, expected {tau}')
+                continue
+            Qf = fresh(state)[1]
+            qf = 0.5 * (K - 1) * math.log(tau) - 0.5 * float(x @ Q.to(torch.float64) @ x) - 0.5 * (K - 1) * math.log(2 * math.pi)
+            bad = (not _close(qf, gmrf_want(state))) if o['gmrf'] == 'plain' else not torch.allclose(Q.to(torch.float64), Qf, rtol=1e-9, atol=1e-12)
+            if bad:
+                found.append(f'{who} of step() / {o["decision"]}() on the same objects: the precision matrix the operator gets {when} has Q[0,0] = '
+                             f'{float(Q[0, 0])} while the precision parameter holds {tau}'
+                             + (f'; its quadratic form gives {qf} but GMRF density at the current field is {gmrf_want(state)}' if o['gmrf'] == 'plain' else ''))
+        c_, w_, g_, Q_ = caps[0]
+        cw, th = coal_want(prop)
+        ss, cnt = [float(v) for v in w_.reshape(-1)], [float(v) for v in c_.reshape(-1)]
+        rec = -sum(s_ / t_ for s_, t_ in zip(ss, th)) - sum(cc * math.log(t_) for cc, t_ in zip(cnt, th))
+        if len(ss) != K or not _close(rec, cw) or not all(_close(u, v) for u, v in zip(ss + cnt, list(oss) + list(ocnt))):
+            found.append(f'{who}: statistics {ss} / counts {cnt} handed to the Newton iteration reproduce {rec}, the coalescent log density at '
+                         f'the population sizes {th} is {cw} (the intervals hold {oss} / {ocnt})')
+        if not all(_close(u, v) for u, v in zip(g_.tolist(), cur['gamma'].tolist())):
+            found.append(f'{who}: field handed over {g_.tolist()} but the chain is at {cur["gamma"].tolist()}')
+
+    try:
+        rounds_flow(model, n, tens, o, proposals, gam_between, on)
+    except Exception as e:
+        return True, f'raised {type(e).__name__}: {str(e)[:160]}'
+    return (True, found[0]) if found else (False, 'agree')
+
+
+def rounds_task(task, tr):
+    _, model, n, G, perm, opts = task
+    o = ss2_opts(opts, n)
+    o['via'] = 'operator'
+    o.setdefault('decision', 'reject')
+    K = (n - 1) if model == 'skyride' else G + 1
+    body, fns = rounds_body(model, n, G, perm, o)
+    desc = ', '.join(f'{k}={v}' for k, v in sorted(o.items()) if v not in ((), 'plain', 'operator'))
+    label = f'two rounds of step() on the same objects: {model} n={n} G={G if model == "skygrid" else 0} sampling-order={perm} [{desc}]'
+    W = ss2_witness(model, n, G, perm, o)
+    W['taunew2'] = 3.4
+    W.update({f'gammab{k}': -0.3 + 0.45 * k + 0.25 * (k % 2) for k in range(K)})
+    dom0 = ss2_domain(model, n, G, perm, o)
+
+    def domain(d, V):
+        cs = dom0(d, V) + [d.lt(0, V['taunew2'])]
+        for k in range(K):
+            cs += [d.le(d.const(-GAMMA_BOUND), V[f'gammab{k}']), d.le(V[f'gammab{k}'], d.const(GAMMA_BOUND))]
+        return cs
+
+    W0 = dict(W)
+    rp = lambda vals: rounds_replay(model, n, G, perm, o, vals, W0)  # noqa
+    tr.fn(*fns)
+    tr.stubs.add('consumer tasks: GMRFPiecewiseCoalescentBlockUpdatingOperator.propose_precision -> a fresh symbolic proposed '
+                 'precision > 0 (its randomness; the proposal itself is C15\'s), newton_raphson -> recorder of its arguments '
+                 '(the run stops once every sample\'s Newton problem has been handed over)')
+    tr.stubs.add('two-round consumer tasks: gmrf.precision_matrix wrapped by a recorder (returns what the real method returns)')
+    tr.bounds['consumer, two consecutive rounds'] = (
+        'real MCMCOperator.step() -> _step() (up to the first Newton hand-over), chain evaluation of GMRF() and the coalescent at the '
+        'proposed state, reject() or accept(), evaluation, optional assignment of a fresh field, second step(): skygrid (1 grid point, '
+        'plain GMRF) and skyride (plain and time-aware GMRF), n = 3, tips sampled together at one symbolic time, skyride also one '
+        'heterochronous sampling order (thorough: all six, skygrid two of them, and two grid points), coverage certificate over heights / grid / field / '
+        'precisions')
+    ex = Explorer(W, domain, body, tr, max_regions=400, timeout=40.0, label=label, deadline=time.time() + 1500)
+    out = ex.run()
+    for s in out.region_samples[:1]:
+        s['case'] = label
+        tr.sample(s)
+    triage(out, rp, tr, label, {'model': model, 'n': n, 'G': G, 'opts': [list(x) if isinstance(x, tuple) else x for x in opts]})
+
+
+# ------------------------------------------------------------------ (f) read / write histories on ONE object
+# Every obligation above reads a published quantity ONCE from a freshly built object.  The consumers (the block-update
+# operator inside MCMC: propose / evaluate / reject / restore / next step) read them again and again from the SAME object
+# across parameter updates.  A history is a sequence of operations on one object graph:
+#   reads   r:<name>      gmrf(), gmrf.precision_matrix(), the coalescent model call,
+#                         coalescent.distribution().sufficient_statistics(tree.node_heights), GMRFGammaIntegrated(), ...
+#   writes  w:<p>:assign   parameter.tensor = FRESH symbols (the previous tensor is cloned first, as MCMCOperator.step does)
+#           w:<p>:inplace  one element of parameter.tensor overwritten in place with a fresh symbol, then
+#                          parameter.fire_parameter_changed() (a clone is saved first)
+#           w:<p>:restore  parameter.tensor = the clone saved by the last write to p (MCMCOperator.reject)
+# Version v of parameter p is its own set of symbols p{v}_{k}; what a read returns after any history must be the value
+# for the symbols the parameters hold NOW: a stale quantity still mentions the symbols of an earlier version, which the
+# solver separates.  After every read:
+#   density reads    value == value of a FRESHLY BUILT object holding the current symbols
+#   matrix reads     density of a fresh object at the current symbols == Gaussian quadratic form of the matrix published
+#                    NOW (and the matrix == the one a fresh object publishes, entry by entry)
+#   statistics reads (statistics, counts) reproduce the log density of a fresh object at the current heights / population
+#                    sizes, and each of them equals the event-list oracle at the current heights
+# All histories of one task run in ONE trace: equal states give identical DAG nodes, so the unchanged tree needs one query
+# per distinct state; the comparisons with the fresh object are mostly closed by hash-consing - each task therefore
+# carries solver vacuity guards (every kind of write CAN change a read value: `sat` expected).
+HIST_MAXVER = 4  # a history of <= 4 operations ending in a read makes <= 3 writes (+ version 0)
+
+
+def _nest(flat, shape):
+    flat = list(flat)
+    if len(shape) <= 1:
+        return flat
+    step = len(flat) // shape[0]
+    return [_nest(flat[i * step:(i + 1) * step], shape[1:]) for i in range(shape[0])]
+
+
+def _numel(shape):
+    return int(math.prod(shape))
+
+
+def _unravel(k, shape):
+    idx = []
+    for s in reversed(shape):
+        idx.append(k % s)
+        k //= s
+    return tuple(reversed(idx))
+
+
+def _flat_ids(d, x):
+    return x._ids.reshape(-1).tolist() if isinstance(x, SymTensor) else [d.const(float(v)) for v in torch.as_tensor(x).reshape(-1).tolist()]
+
+
+def _gauss_node(d, x, Q, tau, N):
+    quad = d.const(0)
+    for i in range(N):
+        for j in range(N):
+            quad = d.add(quad, d.mul(d.mul(x[i], Q[i][j]), x[j]))
+    half = d.const((N - 1) / 2)
+    return d.add(d.add(d.mul(half, d.log(tau)), d.mul(d.const(-0.5), quad)), d.mul(d.neg(half), d.const(LOG2PI)))
+
+
+def _close(a, b, tol=1e-9):
+    return abs(a - b) <= tol * max(1.0, abs(a), abs(b))
+
+
+def _linear_extensions(N, shape):
+    """orders of the internal nodes (by index 0..N-1 into the heights parameter) compatible with parent > child"""
+    tree, _ = _real_tree(N, shape, False)
+    tc = N + 1
+    pairs = [(p - tc, c - tc) for p, c in _tree_order(tree) if c >= tc]
+    out = []
+    for perm in itertools.permutations(range(N)):
+        rank = {node: r for r, node in enumerate(perm)}
+        if all(rank[p] > rank[c] for p, c in pairs):
+            out.append(perm)
+    return out
+
+
+class _World:
+    """one object graph of real torchtree classes with its readable quantities and writable parameters"""
+    reads = ()
+    extras = {}  # unversioned symbolic scalars (name -> witness), all > 0
+    sig = ''
+
+    def shapes(self):
+        raise NotImplementedError
+
+    def positive(self):
+        return ()
+
+    def witness(self, p, ver):
+        raise NotImplementedError
+
+    def domain(self, d, S):
+        return []
+
+    def patched(self):
+        return contextlib.nullcontext()
+
+    def label(self):
+        return self.sig
+
+    # heights of a real TimeTreeModel: version v of internal node i lies in (rank_i + 0.55, rank_i + 1.45), so that every
+    # mixture of versions (in-place writes) is a valid tree and the order of the coalescent events is that of `order`
+    def _h_witness(self, ver):
+        rank = {node: r for r, node in enumerate(self.order)}
+        return [rank[i] + 0.6 + 0.17 * ver + 0.03 * i for i in range(self.N)]
+
+    def _h_domain(self, d, S):
+        rank = {node: r for r, node in enumerate(self.order)}
+        cs = []
+        for v in range(HIST_MAXVER):
+            for i, node in enumerate(S('h', v)):
+                cs += [d.lt(d.const(rank[i] + 0.55), node), d.lt(node, d.const(rank[i] + 1.45))]
+        return cs
+
+    def _tree(self, h):
+        tree, hp = _real_tree(self.N, self.shape, self.hetero)
+        hp.tensor = h
+        return tree, hp
+
+
+def _sorted_heights(hvals, order):
+    return [hvals[i] for i in order]
+
+
+class WorldGMRF(_World):
+    """GMRF(field, precision): plain, unbatched (B = 0) or a batch of B fields with one precision each"""
+    reads = ('call', 'pm')
+
+    def __init__(self, N, B):
+        self.N, self.B = N, B
+        self.sig = 'GMRF:plain:history' + (':batched' if B else '')
+
+    def label(self):
+        return f'GMRF plain, field length {self.N}, ' + (f'batch of {self.B}' if self.B else 'unbatched')
+
+    def shapes(self):
+        return {'x': (self.B, self.N) if self.B else (self.N,), 'tau': (self.B, 1) if self.B else (1,)}
+
+    def positive(self):
+        return ('tau',)
+
+    def witness(self, p, ver):
+        rows = range(max(self.B, 1))
+        if p == 'x':
+            return [0.3 * i * i - 0.2 * b + 0.1 + 0.37 * ver * (i + 1) - 0.21 * ver * ver * (b + 1) for b in rows for i in range(self.N)]
+        return [1.7 + b + 0.6 * ver for b in rows]
+
+    def fns(self):
+        from torchtree.distributions.gmrf import GMRF
+
+        return [GMRF._call, GMRF.precision_matrix, GMRF.handle_parameter_changed, GMRF.__call__]
+
+    def build(self, tens, extras=None):
+        from torchtree.core.parameter import Parameter
+        from torchtree.distributions.gmrf import GMRF
+
+        f, p = Parameter('field', tens['x']), Parameter('prec', tens['tau'])
+        return {'P': {'x': f, 'tau': p}, 'gm': GMRF('gmrf', f, p)}
+
+    def read(self, bd, r):
+        return bd['gm']() if r == 'call' else bd['gm'].precision_matrix()
+
+    def _rows(self, ids):
+        R = max(self.B, 1)
+        return [(ids['x'][b * self.N:(b + 1) * self.N], ids['tau'][b]) for b in range(R)]
+
+    def sym_goals(self, d, r, got, fresh, ids):
+        R, N = max(self.B, 1), self.N
+        want_shape = ((R, 1) if self.B else (1,)) if r == 'call' else (((R,) if self.B else ()) + (N, N))
+        if tuple(got.shape) != want_shape:
+            return [(f'{r}: result of shape {list(want_shape)} (got {list(got.shape)})', d.FALSE, [], f'{self.sig}:shape')]
+        lpf = _flat_ids(d, fresh('call'))
+        goals = []
+        if r == 'call':
+            lp = _flat_ids(d, got)
+            for b in range(R):
+                goals.append((f'[sample {b}] GMRF() == GMRF() of a freshly built object holding the current field / precision',
+                              d.eq(lp[b], lpf[b]), [], f'{self.sig}:density-vs-fresh-object'))
+            return goals
+        Qs = _nest(_flat_ids(d, got), (R, N, N))
+        Qf = _nest(_flat_ids(d, fresh('pm')), (R, N, N))
+        for b, (x, tau) in enumerate(self._rows(ids)):
+            node = d.eq(lpf[b], _gauss_node(d, x, Qs[b], tau, N))
+            goals.append((f'[sample {b}] GMRF density at the current field / precision == Gaussian quadratic form with the precision '
+                          f'matrix published NOW', node, ground_axioms(d, [node]), f'{self.sig}:density-vs-precision_matrix'))
+            goals.append((f'[sample {b}] precision_matrix() == the matrix a freshly built object publishes for the current precision',
+                          d.and_(*[d.eq(Qs[b][i][j], Qf[b][i][j]) for i in range(N) for j in range(N)]), [],
+                          f'{self.sig}:precision_matrix-vs-fresh-object'))
+        return goals
+
+    def oracle(self, r, got, vals, fresh):
+        R, N = max(self.B, 1), self.N
+        for b in range(R):
+            x, tau = vals['x'][b * N:(b + 1) * N], vals['tau'][b]
+            want = sum(0.5 * math.log(tau) - 0.5 * math.log(2 * math.pi) - 0.5 * tau * (x[i + 1] - x[i]) ** 2 for i in range(N - 1))
+            if r == 'call':
+                lp = float(got.reshape(-1)[b])
+                if not _close(lp, want):
+                    return f'sample {b}: GMRF() = {lp} but the product of normal increments at the current field {x} / precision {tau} is {want}'
+            else:
+                Q = got.reshape(R, N, N)[b].to(torch.float64)
+                xt = torch.tensor(x, dtype=torch.float64)
+                qf = 0.5 * (N - 1) * math.log(tau) - 0.5 * float(xt @ Q @ xt) - 0.5 * (N - 1) * math.log(2 * math.pi)
+                D = torch.zeros(N - 1, N, dtype=torch.float64)
+                for i in range(N - 1):
+                    D[i, i], D[i, i + 1] = -1.0, 1.0
+                if not _close(qf, want) or not torch.allclose(Q, tau * (D.t() @ D), rtol=1e-9, atol=1e-12):
+                    return (f'sample {b}: precision_matrix() has Q[0,0] = {float(Q[0, 0])} while the precision parameter holds {tau}; its '
+                            f'quadratic form gives {qf} but the GMRF density at the current field {x} / precision {tau} is {want}')
+        return None
+
+
+class WorldGMRFTime(_World):
+    """time-aware GMRF on a real TimeTreeModel (symbolic internal heights); the published matrix ignores the durations (known
+    finding of (a)), so the matrix read is compared with the matrix of a fresh object only"""
+    reads = ('call', 'pm')
+    hetero = False
+
+    def __init__(self, N, si, oi, rescale):
+        self.N, self.rescale = N, rescale
+        self.shape = _tree_shapes(N)[si]
+        self.order = _linear_extensions(N, self.shape)[oi]
+        self.sig = 'GMRF:time-aware:history'
+
+    def label(self):
+        return (f'time-aware GMRF rescale={self.rescale} on TimeTreeModel {cm.to_newick(self.shape)}, coalescent events in the order '
+                f'{list(self.order)}')
+
+    def shapes(self):
+        return {'x': (self.N,), 'tau': (1,), 'h': (self.N,)}
+
+    def positive(self):
+        return ('tau',)
+
+    def witness(self, p, ver):
+        if p == 'x':
+            return [0.3 * i * i + 0.1 + 0.37 * ver * (i + 1) - 0.21 * ver * ver for i in range(self.N)]
+        if p == 'tau':
+            return [1.7 + 0.6 * ver]
+        return self._h_witness(ver)
+
+    def domain(self, d, S):
+        return self._h_domain(d, S)
+
+    def fns(self):
+        from torchtree.distributions.gmrf import GMRF
+        from torchtree.evolution.tree_model import TimeTreeModel
+
+        return [GMRF._call, GMRF.precision_matrix, GMRF.handle_model_changed, TimeTreeModel.handle_parameter_changed]
+
+    def build(self, tens, extras=None):
+        from torchtree.core.parameter import Parameter
+        from torchtree.distributions.gmrf import GMRF
+
+        tree, hp = self._tree(tens['h'])
+        f, p = Parameter('field', tens['x']), Parameter('prec', tens['tau'])
+        return {'P': {'x': f, 'tau': p, 'h': hp}, 'gm': GMRF('gmrf', f, p, tree, None, self.rescale), 'tree': tree}
+
+    def read(self, bd, r):
+        return bd['gm']() if r == 'call' else bd['gm'].precision_matrix()
+
+    def sym_goals(self, d, r, got, fresh, ids):
+        N = self.N
+        want_shape = (1,) if r == 'call' else (N, N)
+        if tuple(got.shape) != want_shape:
+            return [(f'{r}: result of shape {list(want_shape)} (got {list(got.shape)})', d.FALSE, [], f'{self.sig}:shape')]
+        if r == 'call':
+            return [('time-aware GMRF() == GMRF() of a freshly built object holding the current field / precision / node heights',
+                     d.eq(_flat_ids(d, got)[0], _flat_ids(d, fresh('call'))[0]), [], f'{self.sig}:density-vs-fresh-object')]
+        a, b = _flat_ids(d, got), _flat_ids(d, fresh('pm'))
+        return [('precision_matrix() == the matrix a freshly built object publishes for the current precision',
+                 d.and_(*[d.eq(u, v) for u, v in zip(a, b)]), [], f'{self.sig}:precision_matrix-vs-fresh-object')]
+
+    def oracle(self, r, got, vals, fresh):
+        N = self.N
+        x, tau, h = vals['x'], vals['tau'][0], vals['h']
+        if r == 'call':
+            ts = [0.0] + sorted(h)
+            cs = [(ts[-1] if self.rescale else 1.0) / ((ts[i + 1] - ts[i - 1]) / 2.0) for i in range(1, N)]
+            want = (0.5 * (N - 1) * math.log(tau) - 0.5 * tau * sum(c * (x[i] - x[i + 1]) ** 2 for i, c in enumerate(cs))
+                    - 0.5 * (N - 1) * math.log(2 * math.pi))
+            lp = float(got.reshape(-1)[0])
+            if not _close(lp, want):
+                return (f'time-aware GMRF() = {lp} but the density for the current field {x}, precision {tau} and internal heights {h} '
+                        f'is {want}')
+        else:
+            Qf = fresh('pm')
+            if not torch.allclose(got.to(torch.float64), Qf.to(torch.float64), rtol=1e-9, atol=1e-12):
+                return (f'precision_matrix() has Q[0,0] = {float(got[0, 0])} but a freshly built object with the current precision {tau} '
+                        f'publishes Q[0,0] = {float(Qf[0, 0])}')
+        return None
+
+
+class WorldCovariate(_World):
+    """GMRFCovariate built by its from_json; field, precision, covariates and effect sizes writable"""
+    reads = ('call', 'pm')
+
+    def __init__(self, N, P, variant):
+        self.N, self.Pn, self.variant = N, P, variant
+        self.nm = cov_names(N, P, variant)
+        self.B = self.nm['B']
+        _, self.fb, self.pb, self.bb, self.cb = COV_VARIANTS[variant]
+        self.sig = f'{COV_SIG}:history' + (':batched' if self.B > 1 else '')
+
+    def label(self):
+        return f'GMRFCovariate N={self.N} covariates={self.Pn} batching={self.variant}'
+
+    def shapes(self):
+        B, N, P = self.B, self.N, self.Pn
+        return {'x': (B, N) if self.fb else (N,), 'tau': (B, 1) if self.pb else (1,), 'beta': (B, P) if self.bb else (P,),
+                'z': (B, N, P) if self.cb else (N, P)}
+
+    def positive(self):
+        return ('tau',)
+
+    def witness(self, p, ver):
+        W = cov_witness(self.N, self.Pn, self.variant)
+        key = {'x': 'x', 'tau': 'tau', 'beta': 'beta', 'z': 'z'}[p]
+
+        def flat(o):
+            return [W[o]] if isinstance(o, str) else [v for q in o for v in flat(q)]
+
+        base = flat(self.nm[key])
+        bump = {'x': 0.37, 'tau': 0.6, 'beta': 0.45, 'z': 0.29}[p]
+        return [v + bump * ver * (1 + (k % 3)) * (1 if p == 'tau' else (-1) ** (k + ver)) for k, v in enumerate(base)]
+
+    def fns(self):
+        from torchtree.distributions.gmrf import GMRF, GMRFCovariate
+
+        return [GMRFCovariate._call, GMRF.precision_matrix, GMRFCovariate.from_json]
+
+    def build(self, tens, extras=None):
+        g = _cov_build(self.N, self.Pn, self.variant, False, tens)
+        return {'P': {'x': g.field, 'tau': g.precision, 'beta': g.beta, 'z': g.covariates}, 'gm': g}
+
+    def read(self, bd, r):
+        return bd['gm']() if r == 'call' else bd['gm'].precision_matrix()
+
+    def _sample(self, vals, b):
+        N, P = self.N, self.Pn
+        x = vals['x'][(b if self.fb else 0) * N:][:N]
+        tau = vals['tau'][b if self.pb else 0]
+        be = vals['beta'][(b if self.bb else 0) * P:][:P]
+        z = _nest(vals['z'][(b if self.cb else 0) * N * P:][:N * P], (N, P))
+        return x, tau, be, z
+
+    def sym_goals(self, d, r, got, fresh, ids):
+        B, N, P = self.B, self.N, self.Pn
+        batched = B > 1
+        want_shape = ((B, 1) if batched else (1,)) if r == 'call' else (((B,) if batched else ()) + (N, N))
+        if tuple(got.shape) != want_shape:
+            return [(f'{r}: result of shape {list(want_shape)} (got {list(got.shape)})', d.FALSE, [], f'{self.sig}:shape')]
+        lpf = _flat_ids(d, fresh('call'))
+        goals = []
+        if r == 'call':
+            lp = _flat_ids(d, got)
+            for b in range(B):
+                goals.append((f'[sample {b}] GMRFCovariate() == value of a freshly built object holding the current field / precision / '
+                              f'covariates / effect sizes', d.eq(lp[b], lpf[b]), [], f'{self.sig}:density-vs-fresh-object'))
+            return goals
+        Qs = _nest(_flat_ids(d, got), (B, N, N))
+        Qf = _nest(_flat_ids(d, fresh('pm')), (B, N, N))
+        for b in range(B):
+            x, tau, be, z = self._sample(ids, b)
+            res = []
+            for i in range(N):
+                zb = d.const(0)
+                for p in range(P):
+                    zb = d.add(zb, d.mul(z[i][p], be[p]))
+                res.append(d.sub(x[i], zb))
+            node = d.eq(lpf[b], _gauss_node(d, res, Qs[b], tau, N))
+            goals.append((f'[sample {b}] GMRFCovariate density at the current parameters == Gaussian quadratic form of (field - covariates x '
+                          f'beta) with the precision matrix published NOW', node, ground_axioms(d, [node]),
+                          f'{self.sig}:density-vs-precision_matrix'))
+            goals.append((f'[sample {b}] precision_matrix() == the matrix a freshly built object publishes for the current precision',
+                          d.and_(*[d.eq(Qs[b][i][j], Qf[b][i][j]) for i in range(N) for j in range(N)]), [],
+                          f'{self.sig}:precision_matrix-vs-fresh-object'))
+        return goals
+
+    def oracle(self, r, got, vals, fresh):
+        B, N, P = self.B, self.N, self.Pn
+        for b in range(B):
+            x, tau, be, z = self._sample(vals, b)
+            res = [x[i] - sum(z[i][p] * be[p] for p in range(P)) for i in range(N)]
+            want = 0.5 * (N - 1) * math.log(tau) - 0.5 * tau * sum((res[i] - res[i + 1]) ** 2 for i in range(N - 1)) - 0.5 * (N - 1) * math.log(2 * math.pi)
+            if r == 'call':
+                lp = float(got.reshape(-1)[b])
+                if not _close(lp, want):
+                    return (f'sample {b}: GMRFCovariate() = {lp} but the intrinsic GMRF density of field - covariates x beta at the current '
+                            f'parameters is {want} (field {x}, beta {be}, precision {tau})')
+            else:
+                Q = got.reshape(B, N, N)[b].to(torch.float64)
+                rt = torch.tensor(res, dtype=torch.float64)
+                qf = 0.5 * (N - 1) * math.log(tau) - 0.5 * float(rt @ Q @ rt) - 0.5 * (N - 1) * math.log(2 * math.pi)
+                if not _close(qf, want):
+                    return (f'sample {b}: the quadratic form with the published precision matrix gives {qf} but the density at the current '
+                            f'parameters is {want} (precision {tau}, Q[0,0] = {float(Q[0, 0])})')
+        return None
+
+
+class WorldIntegrated(_World):
+    """GMRFGammaIntegrated, plain or time-aware on a real TimeTreeModel; symbolic shape / rate"""
+    reads = ('call',)
+    extras = {'alpha': 1.3, 'beta': 0.7}
+    hetero = False
+
+    def __init__(self, N, time_aware, rescale=True):
+        self.N, self.time_aware, self.rescale = N, time_aware, rescale
+        if time_aware:
+            self.shape = _tree_shapes(N)[0]
+            self.order = _linear_extensions(N, self.shape)[0]
+        self.sig = 'GMRFGammaIntegrated:' + ('time-aware' if time_aware else 'plain') + ':history'
+
+    def label(self):
+        return 'GMRFGammaIntegrated ' + (f'time-aware rescale={self.rescale} on TimeTreeModel {cm.to_newick(self.shape)}' if self.time_aware
+                                         else 'plain') + f', field length {self.N}'
+
+    def shapes(self):
+        return {'x': (self.N,), **({'h': (self.N,)} if self.time_aware else {})}
+
+    def witness(self, p, ver):
+        if p == 'x':
+            return [0.3 * i * i + 0.1 + 0.37 * ver * (i + 1) - 0.21 * ver * ver for i in range(self.N)]
+        return self._h_witness(ver)
+
+    def domain(self, d, S):
+        return self._h_domain(d, S) if self.time_aware else []
+
+    def patched(self):
+        from torchtree.distributions import gmrf_integrated as gi
+
+        @contextlib.contextmanager
+        def cmgr():
+            saved = gi.math
+            gi.math = SymMath()
+            try:
+                yield
+            finally:
+                gi.math = saved
+
+        return cmgr()
+
+    def fns(self):
+        from torchtree.distributions import gmrf_integrated as gi
+
+        return [gi.GMRFGammaIntegrated._call, gi.GMRFGammaIntegrated.__init__]
+
+    def build(self, tens, extras=None):
+        from torchtree.core.parameter import Parameter
+        from torchtree.distributions.gmrf_integrated import GMRFGammaIntegrated
+
+        P = {'x': Parameter('field', tens['x'])}
+        tree = None
+        if self.time_aware:
+            tree, P['h'] = self._tree(tens['h'])
+        return {'P': P, 'gm': GMRFGammaIntegrated('g', P['x'], extras['alpha'], extras['beta'], tree, None, self.rescale)}
+
+    def read(self, bd, r):
+        return bd['gm']()
+
+    def sym_goals(self, d, r, got, fresh, ids):
+        if tuple(got.shape) != (1,):
+            return [(f'{r}: one log density (got shape {list(got.shape)})', d.FALSE, [], f'{self.sig}:shape')]
+        return [('GMRFGammaIntegrated() == value of a freshly built object holding the current field' + (' / node heights' if self.time_aware else ''),
+                 d.eq(_flat_ids(d, got)[0], _flat_ids(d, fresh('call'))[0]), [], f'{self.sig}:density-vs-fresh-object')]
+
+    def oracle(self, r, got, vals, fresh):
+        N = self.N
+        x, al, be = vals['x'], vals['alpha'], vals['beta']
+        cs = [1.0] * (N - 1)
+        if self.time_aware:
+            ts = [0.0] + sorted(vals['h'])
+            cs = [(ts[-1] if self.rescale else 1.0) / ((ts[i + 1] - ts[i - 1]) / 2.0) for i in range(1, N)]
+        quad = sum(c * (x[i] - x[i + 1]) ** 2 for i, c in enumerate(cs))
+        want = (-(N - 1) / 2 * math.log(2 * math.pi) + al * math.log(be) - math.lgamma(al) + math.lgamma(al + (N - 1) / 2)
+                - (al + (N - 1) / 2) * math.log(be + quad / 2))
+        lp = float(got.reshape(-1)[0])
+        if not _close(lp, want):
+            return (f'GMRFGammaIntegrated() = {lp} but the closed form at the current field {x}'
+                    + (f' and internal heights {vals["h"]}' if self.time_aware else '') + f' is {want} (shape {al}, rate {be})')
+        return None
+
+
+class WorldCoalescent(_World):
+    """skyride / skygrid model on a real TimeTreeModel, theta = exp(field) through the real TransformedParameter (CLI wiring)
+    or a plain positive Parameter; optionally with the time-aware / plain GMRF on the same field (gmrf != None)"""
+    hetero = True
+
+    def __init__(self, model, N, direct, gmrf=None):
+        self.model, self.N, self.direct, self.gmrf = model, N, direct, gmrf
+        self.shape = _tree_shapes(N)[0]
+        self.order = _linear_extensions(N, self.shape)[0]
+        self.K = N if model == 'skyride' else 2
+        self.grid = [1.5] if model == 'skygrid' else []  # between the first two coalescent events of every version
+        self.reads = ('coal', 'ss') + (('gmrf', 'pm') if gmrf else ())
+        self.sig = f'{model}:history'
+
+    def label(self):
+        return (f'{self.model} model on TimeTreeModel {cm.to_newick(self.shape)} (heterochronous tips), '
+                + ('theta a plain Parameter' if self.direct else 'theta = exp(field)')
+                + (f', grid {self.grid}' if self.grid else '') + (f', {self.gmrf} GMRF on the same field' if self.gmrf else ''))
+
+    def shapes(self):
+        s = {'g': (self.K,), 'h': (self.N,)}
+        if self.gmrf:
+            s['tau'] = (1,)
+        return s
+
+    def positive(self):
+        return (('g',) if self.direct else ()) + (('tau',) if self.gmrf else ())
+
+    def witness(self, p, ver):
+        if p == 'g':
+            return [(1.5 + 0.8 * k + 0.45 * ver) if self.direct else (0.4 + 0.35 * k - 0.2 * (k % 2) + 0.27 * ver * (1 + k) - 0.2 * ver * ver)
+                    for k in range(self.K)]
+        if p == 'tau':
+            return [1.7 + 0.6 * ver]
+        return self._h_witness(ver)
+
+    def domain(self, d, S):
+        cs = self._h_domain(d, S)
+        if not self.direct:
+            for v in range(HIST_MAXVER):
+                for node in S('g', v):
+                    cs += [d.le(d.const(-GAMMA_BOUND), node), d.le(node, d.const(GAMMA_BOUND))]
+        return cs
+
+    def fns(self):
+        from torchtree.core.parameter import TransformedParameter
+        from torchtree.distributions.gmrf import GMRF
+        from torchtree.evolution import coalescent as co
+        from torchtree.evolution.tree_model import TimeTreeModel
+
+        cls = co.PiecewiseConstantCoalescent if self.model == 'skyride' else co.PiecewiseConstantCoalescentGrid
+        return [cls.sufficient_statistics, cls.log_prob, co.AbstractCoalescentModel._call, TimeTreeModel.handle_parameter_changed] + \
+            ([] if self.direct else [TransformedParameter.handle_parameter_changed]) + ([GMRF._call, GMRF.precision_matrix] if self.gmrf else [])
+
+    def build(self, tens, extras=None):
+        from torchtree.core.parameter import Parameter, TransformedParameter
+        from torchtree.distributions.gmrf import GMRF
+        from torchtree.evolution import coalescent as co
+
+        tree, hp = self._tree(tens['h'])
+        if self.direct:
+            gp = theta = Parameter('coalescent.theta', tens['g'])
+        else:
+            gp = Parameter('coalescent.theta.log', tens['g'])
+            theta = TransformedParameter('coalescent.theta', gp, torch.distributions.ExpTransform())
+        if self.model == 'skygrid':
+            cmodel = co.PiecewiseConstantCoalescentGridModel('coalescent', theta, Parameter('grid', torch.tensor(self.grid, dtype=torch.float64)), tree)
+        else:
+            cmodel = co.PiecewiseConstantCoalescentModel('coalescent', theta, tree)
+        bd = {'P': {'g': gp, 'h': hp}, 'cm': cmodel, 'theta': theta, 'tree': tree}
+        if self.gmrf:
+            bd['P']['tau'] = Parameter('gmrf.precision', tens['tau'])
+            bd['gm'] = GMRF('gmrf', gp, bd['P']['tau'], tree if self.gmrf == 'time-aware' else None, None, True)
+        return bd
+
+    def read(self, bd, r):
+        if r == 'coal':
+            return bd['cm']()
+        if r == 'ss':
+            ss, cnt = bd['cm'].distribution().sufficient_statistics(bd['tree'].node_heights)
+            return ss, cnt
+        if r == 'theta':  # (fresh objects only: the population sizes the current field stands for)
+            return bd['theta'].tensor
+        return bd['gm']() if r == 'gmrf' else bd['gm'].precision_matrix()
+
+    def _tips(self):
+        return [float(v) for v in _tip_dates(self.N, self.hetero)]
+
+    def sym_goals(self, d, r, got, fresh, ids):
+        K = self.K
+        if r in ('coal', 'gmrf'):
+            if tuple(got.shape) != (1,):
+                return [(f'{r}: one log density (got shape {list(got.shape)})', d.FALSE, [], f'{self.sig}:shape')]
+            what = 'the coalescent model call' if r == 'coal' else 'GMRF()'
+            return [(f'{what} == value of a freshly built object holding the current field / node heights' + (' / precision' if r == 'gmrf' else ''),
+                     d.eq(_flat_ids(d, got)[0], _flat_ids(d, fresh(r))[0]), [],
+                     (f'{self.sig}:density-vs-fresh-object' if r == 'coal' else f'GMRF:{self.gmrf}:history:density-vs-fresh-object'))]
+        if r == 'pm':
+            if tuple(got.shape) != (K, K):
+                return [(f'pm: a {K}x{K} matrix (got shape {list(got.shape)})', d.FALSE, [], f'GMRF:{self.gmrf}:history:shape')]
+            Qs, Qf = _flat_ids(d, got), _flat_ids(d, fresh('pm'))
+            goals = [('precision_matrix() == the matrix a freshly built object publishes for the current precision',
+                      d.and_(*[d.eq(u, v) for u, v in zip(Qs, Qf)]), [], f'GMRF:{self.gmrf}:history:precision_matrix-vs-fresh-object')]
+            if self.gmrf == 'plain':
+                node = d.eq(_flat_ids(d, fresh('gmrf'))[0], _gauss_node(d, ids['g'], _nest(Qs, (K, K)), ids['tau'][0], K))
+                goals.append(('GMRF density at the current field / precision == Gaussian quadratic form with the precision matrix published NOW',
+                              node, ground_axioms(d, [node]), 'GMRF:plain:history:density-vs-precision_matrix'))
+            return goals
+        ss, cnt = got
+        if tuple(ss.shape) != (K,) or tuple(cnt.shape) != (K,):
+            return [(f'ss: {K} statistics and {K} counts (got shapes {list(ss.shape)}, {list(cnt.shape)})', d.FALSE, [], f'{self.sig}:shape')]
+        ssi, ci = _flat_ids(d, ss), _flat_ids(d, cnt)
+        th = _flat_ids(d, fresh('theta'))
+        rec = 0
+        for s_, c_, t_ in zip(ssi, ci, th):
+            rec = d.sub(rec, d.div(s_, t_))
+            rec = d.sub(rec, d.mul(c_, d.log(t_)))
+        node = d.eq(_flat_ids(d, fresh('coal'))[0], rec)
+        goals = [('-sum ss_k/theta_k - sum c_k log theta_k, with the statistics / counts published NOW, == coalescent log density of a fresh '
+                  'object at the current node heights / population sizes', node, ground_axioms(d, [node]), f'{self.sig}:sufficient_statistics')]
+        C = [mkfloat(x) for x in ids['h']]
+        oss, ocnt = interval_oracle(self._tips(), C, list(C) if self.model == 'skyride' else self.grid, K, self.model == 'skyride')
+        node2 = d.and_(*([d.eq(ssi[k], SymFloat._id(oss[k])) for k in range(K)] + [d.eq(ci[k], d.const(ocnt[k])) for k in range(K)]))
+        goals.append((f'for each of the {K} intervals, the statistic published NOW == int C(lineages,2) dt over that interval at the CURRENT '
+                      f'node heights and the count == number of coalescent events in it', node2, [], f'{self.sig}:sufficient_statistics:per-interval'))
+        return goals
+
+    def oracle(self, r, got, vals, fresh):
+        K = self.K
+        h = vals['h']
+        th = list(vals['g']) if self.direct else [math.exp(v) for v in vals['g']]
+        oss, ocnt = interval_oracle(self._tips(), h, list(h) if self.model == 'skyride' else self.grid, K, self.model == 'skyride')
+        want = -sum(s_ / t_ for s_, t_ in zip(oss, th)) - sum(c_ * math.log(t_) for c_, t_ in zip(ocnt, th))
+        if r == 'coal':
+            lp = float(got.reshape(-1)[0])
+            if not _close(lp, want):
+                return f'the coalescent model call = {lp} but the event-list oracle at the current heights {h} / population sizes {th} gives {want}'
+        elif r == 'ss':
+            ss, cnt = [float(v) for v in got[0].reshape(-1)], [float(v) for v in got[1].reshape(-1)]
+            rec = -sum(s_ / t_ for s_, t_ in zip(ss, th)) - sum(c_ * math.log(t_) for c_, t_ in zip(cnt, th))
+            if not _close(rec, want) or not all(_close(a, b) for a, b in zip(ss + cnt, list(oss) + list(ocnt))):
+                return (f'sufficient statistics {ss} / counts {cnt} reproduce {rec} but the coalescent log density at the current heights {h} / '
+                        f'population sizes {th} is {want} (the intervals hold {oss} / {ocnt})')
+        else:
+            ref = fresh(r)
+            if not torch.allclose(torch.as_tensor(got).to(torch.float64), torch.as_tensor(ref).to(torch.float64), rtol=1e-9, atol=1e-12):
+                return (f'{"GMRF()" if r == "gmrf" else "precision_matrix()"} = {torch.as_tensor(got).reshape(-1).tolist()[:4]} but a freshly built '
+                        f'object at the current field {vals["g"]} / precision {vals["tau"]} / heights {h} gives '
+                        f'{torch.as_tensor(ref).reshape(-1).tolist()[:4]}')
+        return None
+
+
+class WorldCoalInt(_World):
+    """ConstantCoalescentIntegratedModel (from_json) on a real TimeTreeModel; symbolic alpha / beta"""
+    reads = ('call',)
+    extras = {'alpha': 1.3, 'beta': 0.7}
+    hetero = True
+
+    def __init__(self, N):
+        self.N = N
+        self.shape = _tree_shapes(N)[0]
+        self.order = _linear_extensions(N, self.shape)[0]
+        self.sig = 'ConstantCoalescentIntegrated:history'
+
+    def label(self):
+        return f'ConstantCoalescentIntegratedModel on TimeTreeModel {cm.to_newick(self.shape)} (heterochronous tips)'
+
+    def shapes(self):
+        return {'h': (self.N,)}
+
+    def witness(self, p, ver):
+        return self._h_witness(ver)
+
+    def domain(self, d, S):
+        return self._h_domain(d, S)
+
+    def patched(self):
+        from torchtree.evolution import coalescent as co
+
+        @contextlib.contextmanager
+        def cmgr():
+            saved = co.math
+            co.math = SymMath()
+            try:
+                yield
+            finally:
+                co.math = saved
+
+        return cmgr()
+
+    def fns(self):
+        from torchtree.evolution import coalescent as co
+
+        return [co.ConstantCoalescentIntegrated.log_prob, co.ConstantCoalescentIntegratedModel._call]
+
+    def build(self, tens, extras=None):
+        import torchtree.evolution.taxa  # noqa
+        import torchtree.evolution.tree_model  # noqa
+
+        n = self.N + 1
+        dic = {}
+        cm.build(cm.taxa_json(n, _tip_dates(self.N, self.hetero)), dic)
+        model, _ = cm.build({'id': 'coalescent', 'type': 'ConstantCoalescentIntegratedModel', 'alpha': 3, 'beta': 0.003,
+                             'tree_model': cm.time_tree_json(self.shape, n)}, dic)
+        model.alpha, model.beta = extras['alpha'], extras['beta']
+        dic['tree.heights'].tensor = tens['h']
+        return {'P': {'h': dic['tree.heights']}, 'cm': model}
+
+    def read(self, bd, r):
+        return bd['cm']()
+
+    def sym_goals(self, d, r, got, fresh, ids):
+        if tuple(got.shape) != (1,):
+            return [(f'{r}: one log density (got shape {list(got.shape)})', d.FALSE, [], f'{self.sig}:shape')]
+        return [('ConstantCoalescentIntegratedModel() == value of a freshly built object holding the current node heights',
+                 d.eq(_flat_ids(d, got)[0], _flat_ids(d, fresh('call'))[0]), [], f'{self.sig}:density-vs-fresh-object')]
+
+    def oracle(self, r, got, vals, fresh):
+        n = self.N + 1
+        al, be, h = vals['alpha'], vals['beta'], vals['h']
+        oss, _ = interval_oracle([float(v) for v in _tip_dates(self.N, self.hetero)], h, [], 1, False)
+        want = al * math.log(be) - math.lgamma(al) + math.lgamma(al + n - 1) - (al + n - 1) * math.log(be + oss[0])
+        lp = float(got.reshape(-1)[0])
+        if not _close(lp, want):
+            return f'ConstantCoalescentIntegratedModel() = {lp} but the closed form at the current internal heights {h} is {want}'
+        return None
+
+
+def make_world(spec):
+    kind = spec[0]
+    if kind == 'gmrf':
+        return WorldGMRF(spec[1], spec[2])
+    if kind == 'gmrf-time':
+        return WorldGMRFTime(*spec[1:])
+    if kind == 'covariate':
+        return WorldCovariate(*spec[1:])
+    if kind == 'integrated':
+        return WorldIntegrated(*spec[1:])
+    if kind == 'coalescent':
+        return WorldCoalescent(*spec[1:])
+    if kind == 'coalint':
+        return WorldCoalInt(spec[1])
+    raise ValueError(spec)
+
+
+def hist_name(p, ver, k):
+    return f'{p}{ver}_{k}'
+
+
+def hist_prefixes(reads, limit=None):
+    """every order of every subset of the reads (the empty one = a freshly built object); limit: only the empty prefix, the
+    single reads and the rotations of the full set (worlds with four reads)"""
+    out = [()]
+    for m in range(1, len(reads) + 1):
+        for c in itertools.permutations(reads, m):
+            if limit and 1 < m and not (m == len(reads) and c in [tuple(reads[i:] + reads[:i]) for i in range(len(reads))]):
+                continue
+            out.append(tuple(('r', r) for r in c))
+    return out
+
+
+def hist_sequences(world, L, kinds=('assign', 'inplace', 'restore')):
+    """operation sequences of length exactly L that end in a read (every shorter history is a prefix of one of them and
+    every read on the way is checked); restore only after a write to the same parameter"""
+    reads = [('r', r) for r in world.reads]
+    params = list(world.shapes())
+    out = []
+
+    def rec(seq, written):
+        if len(seq) == L - 1:
+            out.extend(seq + [r] for r in reads)
+            return
+        for r in reads:
+            rec(seq + [r], written)
+        for p in params:
+            for k in kinds:
+                if k == 'restore' and p not in written:
+                    continue
+                rec(seq + [('w', p, k)], written | {p})
+
+    rec([], frozenset())
+    return [tuple(s) for s in out]
+
+
+def hist_text(prefix, ops):
+    def one(o):
+        return o[1] + '()' if o[0] == 'r' else f'{o[1]}:{o[2]}'
+
+    return (' '.join(one(o) for o in prefix) or '(fresh object)') + ' | ' + ' '.join(one(o) for o in ops)
+
+
+def hist_exec(world, history, tensor_of, scalar_of, extras, on_read, upto=None):
+    """run one history on one freshly built object graph.  state[p][k] = (version, k): which symbol sits at position k of p"""
+    shapes = world.shapes()
+    bd = world.build({p: tensor_of(p, [(0, k) for k in range(_numel(s))]) for p, s in shapes.items()}, extras)
+    state = {p: [(0, k) for k in range(_numel(s))] for p, s in shapes.items()}
+    saved_t, saved_s = {}, {}
+    vers = {p: 0 for p in shapes}
+    for i, op in enumerate(history):
+        if upto is not None and i > upto:
+            break
+        if op[0] == 'r':
+            if on_read(i, op[1], world.read(bd, op[1]), {p: list(s) for p, s in state.items()}) is False:
+                return
+            continue
+        _, p, kind = op
+        par = bd['P'][p]
+        if kind == 'restore':
+            par.tensor = saved_t[p]  # MCMCOperator.reject
+            state[p] = list(saved_s[p])
+            continue
+        saved_t[p] = par.tensor.clone()  # MCMCOperator.step
+        saved_s[p] = list(state[p])
+        vers[p] += 1
+        v = vers[p]
+        n = _numel(shapes[p])
+        if kind == 'assign':
+            state[p] = [(v, k) for k in range(n)]
+            par.tensor = tensor_of(p, state[p])
+        else:
+            k = (v - 1) % n
+            tt = par.tensor
+            tt[_unravel(k, shapes[p])] = scalar_of(p, v, k)
+            par.fire_parameter_changed()
+            state[p][k] = (v, k)
+
+
+def hist_inputs(world):
+    W = {}
+    for p, s in world.shapes().items():
+        for v in range(HIST_MAXVER):
+            for k, val in enumerate(world.witness(p, v)):
+                W[hist_name(p, v, k)] = float(val)
+    W.update(world.extras)
+    return W
+
+
+def hist_replay(world, history, vals, W, upto=None):
+    """the real classes on plain tensors; every read is compared with an independent float oracle (and a fresh rebuild)"""
+    get = lambda k: float(vals[k]) if vals.get(k) is not None else float(W[k])  # noqa
+    shapes = world.shapes()
+    pos = set(world.positive())
+    val = lambda p, v, k: (abs(get(hist_name(p, v, k))) + 1e-9) if p in pos else get(hist_name(p, v, k))  # noqa
+    tensor_of = lambda p, st: torch.tensor([val(p, v, k) for v, k in st], dtype=torch.float64).reshape(shapes[p])  # noqa
+    scalar_of = lambda p, v, k: val(p, v, k)  # noqa
+    extras = {k: abs(get(k)) + 1e-9 for k in world.extras}
+    found = []
+
+    def on_read(i, r, got, state):
+        cur_vals = {p: [val(p, v, k) for v, k in st] for p, st in state.items()}
+        cur_vals.update(extras)
+
+        def fresh(rr):
+            return world.read(world.build({p: tensor_of(p, st) for p, st in state.items()}, extras), rr)
+
+        msg = world.oracle(r, got, cur_vals, fresh)
+        if msg:
+            ops = [o[1] + '()' if o[0] == 'r' else f'{o[1]}:{o[2]}' for o in history[:i + 1]]
+            found.append(f'after the history [{", ".join(ops)}] on one object: {msg}')
+            return False
+        return True
+
+    try:
+        hist_exec(world, history, tensor_of, scalar_of, extras, on_read, upto)
+    except Exception as e:
+        return True, f'raised {type(e).__name__}: {str(e)[:160]}'
+    return (True, found[0]) if found else (False, 'agree')
+
+
+def hist_task(task, tr):
+    """('hist', world spec, L, prefix index or None (= all), write kinds)"""
+    from symtorch.explore import _to_float, prove
+
+    _, spec, L, pi, kinds = task
+    world = make_world(spec)
+    prefixes = hist_prefixes(list(world.reads), limit=len(world.reads) > 3)
+    if pi is not None:
+        prefixes = [prefixes[pi]]
+    seqs = hist_sequences(world, L, kinds)
+    shapes = world.shapes()
+    label = (f'histories on one object: {world.label()}; {len(prefixes)} read order(s) ' +
+             (f'[{hist_text(prefixes[0], ())[:-3]}] ' if pi is not None else '') + f'x {len(seqs)} sequences of {L} operations')
+    W = hist_inputs(world)
+    tr.fn(*world.fns())
+    names = {p: [[hist_name(p, v, k) for k in range(_numel(s))] for v in range(HIST_MAXVER)] for p, s in shapes.items()}
+
+    def domain(d, V):
+        S = lambda p, v: [V[n] for n in names[p][v]]  # noqa
+        cs = [d.lt(0, V[k]) for k in world.extras]
+        for p in world.positive():
+            for v in range(HIST_MAXVER):
+                cs += [d.lt(0, node) for node in S(p, v)]
+        return cs + world.domain(d, S)
+
+    def body(t, V, W_):
+        d = t.dag
+        goals, memo_fresh, memo_goals = {}, {}, {}
+        tensor_of = lambda p, st: from_ids(torch.tensor([V[hist_name(p, v, k)] for v, k in st], dtype=torch.int64).reshape(shapes[p]))  # noqa
+        scalar_of = lambda p, v, k: from_ids(torch.tensor(V[hist_name(p, v, k)], dtype=torch.int64))  # noqa
+        with world.patched():
+            extras = {k: mkfloat(V[k]) for k in world.extras}
+
+            def fresh_at(state):
+                key = tuple((p, tuple(st)) for p, st in sorted(state.items()))
+
+                def fresh(r):
+                    if (key, r) not in memo_fresh:  # one freshly built object graph per quantity
+                        memo_fresh[(key, r)] = world.read(world.build({p: tensor_of(p, st) for p, st in state.items()}, extras), r)
+                    return memo_fresh[(key, r)]
+
+                return key, fresh
+
+            for prefix in prefixes:
+                for ops in seqs:
+                    history = tuple(prefix) + tuple(ops)
+
+                    def on_read(i, r, got, state, history=history):
+                        key, fresh = fresh_at(state)
+                        parts = got if isinstance(got, tuple) else (got,)
+                        gk = (key, r, tuple(tuple(_flat_ids(d, x)) + tuple(x.shape) for x in parts))
+                        if gk not in memo_goals:
+                            ids = {p: [V[hist_name(p, v, k)] for v, k in st] for p, st in state.items()}
+                            memo_goals[gk] = world.sym_goals(d, r, got, fresh, ids)
+                        for lab, node, hyps, sig in memo_goals[gk]:
+                            if (node, sig) not in goals:
+                                goals[(node, sig)] = Goal(f'{lab} [first met after: {hist_text(history[:len(prefix)], history[len(prefix):i + 1])}]',
+                                                          node, hyps=hyps, signature=sig, info={'history': history, 'step': i})
+                        tr.evaluations += 1
+                        return True
+
+                    hist_exec(world, history, tensor_of, scalar_of, extras, on_read)
+            # ---- vacuity guards: every kind of write to every parameter can change what some read returns
+            st0 = {p: [(0, k) for k in range(_numel(s))] for p, s in shapes.items()}
+            dom = domain(d, V)
+            for p, s in shapes.items():
+                for kind in kinds:
+                    if kind == 'restore':
+                        continue
+                    st1 = {q: list(v) for q, v in st0.items()}
+                    st1[p] = [(1, k) for k in range(_numel(s))] if kind == 'assign' else [(1, 0)] + st0[p][1:]
+                    f0, f1 = fresh_at(st0)[1], fresh_at(st1)[1]
+                    status = 'proved'
+                    for r in world.reads:
+                        a, b = f0(r), f1(r)
+                        a, b = (a if isinstance(a, tuple) else (a,)), (b if isinstance(b, tuple) else (b,))
+                        same = d.and_(*[d.eq(u, v) for x, y in zip(a, b) for u, v in zip(_flat_ids(d, x), _flat_ids(d, y))])
+                        if same == d.TRUE:
+                            continue
+                        status = prove(d, dom + list(t.pcs), same, timeout=20, tr=tr, label='vacuity guard')[0]
+                        if status == 'unknown':
+                            # an existence statement: ask again with every variable replaced by its witness value (an
+                            # under-approximation that can only FIND a point where the write changes the value)
+                            roots = [same] + dom + list(t.pcs)
+                            pin = {i: d.const(d.vals[i]) for i in d.topo(roots) if d.ops[i] == 'var'}
+                            rs = d.substitute(roots, pin)
+                            status = prove(d, rs[1:], rs[0], timeout=20, tr=tr, label='vacuity guard at the witness')[0]
+                        if status == 'refuted':
+                            break
+                    if status != 'refuted':
+                        tr.inconc(f'{label}: vacuity guard: a write ({kind}) to {p} cannot change any read value ({status})')
+        out_goals = list(goals.values())
+        return out_goals + _defined_goals(t, d, world.sig)
+
+    tr.bounds['histories on one object'] = (
+        'objects: plain GMRF (field length 3, unbatched and a batch of 2), time-aware GMRF and GMRFGammaIntegrated on a real '
+        'TimeTreeModel (caterpillar, 4 taxa), GMRFCovariate (N = 3, P = 2), skyride / skygrid models on a real heterochronous '
+        'TimeTreeModel (3 taxa) with theta = exp(field) or a plain theta, ConstantCoalescentIntegratedModel: every order of every '
+        'subset of the reads followed by every sequence of 3 (thorough 4; time-aware GMRF and GMRFCovariate: 4 without the in-place writes) operations out '
+        'of {each read, each parameter x assign-fresh / in-place + fire_parameter_changed / restore-the-saved-clone}; coalescent model and plain / time-aware GMRF wired to one '
+        'shared field (four reads: no read, single reads, rotations of all four, then 2 operations; thorough 3); thorough, 3 '
+        'operations: rescale off, the balanced 4-taxon tree in both orders of its inner nodes, 4 taxa for the coalescent models, '
+        'the documented batch shapes of GMRFCovariate.  Every parameter version has its own symbols; version v of the height of a '
+        'node stays in a band of its own, so the order of the coalescent events and their position relative to tips and grid is '
+        'fixed (interleavings: (d), (d\'))')
+    if world.extras:
+        tr.stubs.add('history tasks: math -> SymMath in gmrf_integrated / coalescent (symbolic shape / rate)')
+    W0 = dict(W)
+    ex = Explorer(W, domain, body, tr, max_regions=8, timeout=40.0, label=label, deadline=time.time() + 1500, check_defined=False,
+                  parallel=(spec[0] in PORTFOLIO_KINDS))
+    out = ex.run()
+    for s in out.region_samples[:1]:
+        s['case'] = label
+        tr.sample(s)
+    # triage with the history of the failing goal
+    sigs = set()
+    for g, model, k, witness in out.failed:
+        info = g.info or {}
+        if g.signature in sigs:
+            continue
+        if 'history' not in info:
+            tr.inconc(f'{label}: {g.label} refuted (no history attached)')
+            continue
+        for vals in ({a: _to_float(b) for a, b in model.items() if b is not None}, witness):
+            ok, detail = hist_replay(world, info['history'], vals, W0, info['step'])
+            if ok:
+                break
+        if ok:
+            sigs.add(g.signature)
+            tr.violation(g.signature, f'{world.label()}: {g.label}: {detail}',
+                         {'world': list(spec), 'history': [list(o) for o in info['history']], 'values': vals})
+        else:
+            tr.inconc(f'{label}: solver counterexample for "{g.label}" did not reproduce on the real code ({detail})')
+    for lab, detail, witness in out.unknown:
+        tr.inconc(f'{label}: {lab} undecided ({detail})')
+
+
 # ------------------------------------------------------------------ driver
 # task kinds whose goals are sent to the three solvers at once (first definite answer wins): degree-5 polynomial identities
 # that z3 4.8 needs > 10 s for and cvc5 closes at once (or the other way round)
@@ -1616,6 +2884,10 @@ def run_task(task, tr):
         return ss_batched_task(task, tr)
     elif kind == 'ss2':
         return ss2_task(task, tr)
+    elif kind == 'hist':
+        return hist_task(task, tr)
+    elif kind == 'rounds':
+        return rounds_task(task, tr)
     elif kind == 'coalint':
         n, perm = task[1], task[2]
         mode = task[3] if len(task) > 3 else 'float'
@@ -1808,6 +3080,57 @@ def coalint_tasks(tier):
     return ts
 
 
+def hist_tasks(tier):
+    """read / write histories on one object (f) and the real operator for two consecutive rounds (e')"""
+    thorough = tier == 'thorough'
+    ALL = ('assign', 'inplace', 'restore')
+    # single objects, two reads (or one): quick 3 operations after every read order, thorough 4
+    light = [('gmrf', 3, 0), ('gmrf', 3, 2), ('gmrf-time', 3, 0, 0, True), ('integrated', 3, False, True), ('integrated', 3, True, True),
+             ('coalint', 2), ('coalescent', 'skyride', 2, False, None), ('coalescent', 'skygrid', 2, False, None),
+             ('coalescent', 'skyride', 2, True, None), ('covariate', 3, 2, 'single')]
+    # further objects (thorough, 3 operations): rescale off, the balanced tree in both orders of its inner nodes, 4-5 taxa, batches
+    more = [('gmrf-time', 3, 0, 0, False), ('gmrf-time', 3, 1, 0, True), ('gmrf-time', 3, 1, 1, True), ('integrated', 3, True, False),
+            ('coalint', 3), ('coalescent', 'skyride', 3, False, None), ('coalescent', 'skygrid', 3, False, None),
+            ('coalescent', 'skygrid', 2, True, None), ('covariate', 3, 2, 'batch'), ('covariate', 2, 1, 'shared-beta')]
+    # coalescent model and GMRF on one shared field, four reads: quick 2 operations, thorough 3 (~14 ms of symbolic execution per history)
+    wired = [('coalescent', 'skyride', 2, False, 'time-aware'), ('coalescent', 'skygrid', 2, False, 'plain')]
+    ts = []
+    for spec in light:
+        if thorough:
+            # objects with three or four writable parameters (time-aware GMRF: 1250, GMRFCovariate: 2440 sequences of 4 operations
+            # per read order): 4 operations without the in-place writes, 3 operations with them
+            kinds = ('assign', 'restore') if len(make_world(spec).shapes()) >= 3 else ALL
+            ts += [('hist', spec, 4, pi, kinds) for pi in range(len(hist_prefixes(list(make_world(spec).reads))))]
+            if kinds != ALL:
+                ts.append(('hist', spec, 3, None, ALL))
+        else:
+            ts.append(('hist', spec, 3, None, ALL))
+    if thorough:
+        ts += [('hist', spec, 3, None, ALL) for spec in more]
+        wired += [('coalescent', 'skyride', 3, False, 'time-aware'), ('coalescent', 'skyride', 2, False, 'plain')]
+    for spec in wired:
+        if thorough:
+            ts += [('hist', spec, 3, pi, ALL) for pi in range(len(hist_prefixes(list(make_world(spec).reads), limit=True)))]
+        else:
+            ts.append(('hist', spec, 2, None, ALL))
+    perms = list(itertools.permutations(range(3)))
+    for model, G, gk in (('skygrid', 1, 'plain'), ('skyride', 0, 'plain'), ('skyride', 0, 'time-aware')):
+        extra = (('gmrf', gk),) if gk != 'plain' else ()
+        for decision in ('reject', 'accept'):
+            for between in (False, True):
+                ts.append(('rounds', model, 3, G, perms[0], (('iso', True), ('decision', decision)) + ((('between', True),) if between else ()) + extra))
+        # heterochronous tips: skygrid has 52 regions per sampling order (thorough: two of the six orders), skyride 13
+        hetero = (perms[1::3] if model == 'skygrid' else perms) if thorough else ((perms[4],) if model == 'skyride' else ())
+        for perm in hetero:
+            ts.append(('rounds', model, 3, G, perm, (('decision', 'reject'),) + extra))
+            if thorough:
+                ts.append(('rounds', model, 3, G, perm, (('decision', 'accept'), ('between', True)) + extra))
+    if thorough:
+        for decision in ('reject', 'accept'):
+            ts.append(('rounds', 'skygrid', 3, 2, perms[0], (('iso', True), ('decision', decision), ('between', True))))
+    return ts
+
+
 def tasks_for(tier):
     ts = []
     Ns = (2, 3, 4) if tier == 'quick' else (2, 3, 4, 5)
@@ -1834,7 +3157,7 @@ def tasks_for(tier):
             ts.append(('coalint', 4, perm))
         for perm in itertools.permutations(range(3)):
             ts.append(('ss', 'skygrid', 3, 2, perm))
-    new = covariate_tasks(tier) + ss2_tasks(tier) + coalint_tasks(tier)
+    new = covariate_tasks(tier) + ss2_tasks(tier) + coalint_tasks(tier) + hist_tasks(tier)
 
     def heavy(t_):  # consumer explorations over the whole domain (most regions): started first
         return t_[0] == 'ss2' and t_[5] == (('via', 'operator'),) and (t_[2] == 4 or t_[3] >= 1)
@@ -1847,7 +3170,10 @@ def body(chk):
                        'the block-update operator up to the point where it hands its Newton problem over; the separately written '
                        'code paths are compared as expressions by the solver for all field vectors, covariates, effect sizes, '
                        'precisions, hyper-parameters, heights, grid points and population sizes; event orderings are path regions, '
-                       'exact ties are aliasing configurations (one symbol for both inputs)')
+                       'exact ties are aliasing configurations (one symbol for both inputs); read / write histories on one object '
+                       '(and two consecutive step() / reject() | accept() rounds of the real operator): every parameter version is '
+                       'a set of symbols of its own, so a quantity that was not recomputed after an update still mentions the '
+                       'symbols of an earlier version and the solver separates it from the value at the current symbols')
     chk.total.assumptions |= {'Gamma-integral lemma (trusted): int_0^inf t^(a-1) e^(-b t) dt = Gamma(a)/b^a; lgamma/log uninterpreted',
                               'numerical quadrature (mpmath) is used only in replays'}
     chk.total.bounds['sizes'] = ('field length 2..4 (5 thorough), n=3 taxa (4 thorough), grid <= 1 (2 thorough), shapes [] and [2] '
@@ -1864,8 +3190,12 @@ def body(chk):
         'or at fixed heterochronous dates, batch [2] for 3 taxa (thorough: all); alpha, beta > 0 symbolic')
     chk.total.bounds['outside'] = (
         'GMRFCovariate with a tree model / weights (the class cannot be given any); the operator after the hand-over to '
-        'newton_raphson (Newton iteration, Cholesky pipeline, Hastings term: C15); batches of more than two trees; the '
-        'SoftPiecewiseConstantCoalescentGrid (no sufficient statistics); numerical quadrature itself')
+        'newton_raphson (Newton iteration, Cholesky pipeline, Hastings term: C15; hence in the two-round tasks the field is never '
+        'the operator\'s own proposal but stays / is assigned by the harness); batches of more than two trees; the '
+        'SoftPiecewiseConstantCoalescentGrid (no sufficient statistics); numerical quadrature itself; histories: longer than 3 '
+        '(thorough 4) operations after the read order, batched objects other than the plain GMRF / GMRFCovariate, a symbolic grid, '
+        'interleavings of heights with tips / grid that change between versions, writes through TransformedParameter.tensor, '
+        'FakeTreeModel-backed coalescent models (fixed data, the model does not listen to them)')
     pmap(run_task, tasks_for(chk.tier), chk.total)
 
 
